@@ -17,7 +17,7 @@ K_TARGETS = ["model/Sem.vo"]
 HEADER = """From QV Require Import model.Base model.Lang model.Sem.
 Open Scope string_scope.
 Definition NAMES := ["a"; "b"; "sub"].
-Definition MkO (b : bool) (i u : Z) (s : list N) (n : option nat) : object := {| o_b := b; o_i := i; o_u := u; o_s := s; o_next := n |}.
+Definition MkO (b : bool) (i u : Z) (s : list N) (n : option nat) (m1 m2 : Z) : object := {| o_b := b; o_i := i; o_u := u; o_s := s; o_next := n; o_m1 := m1; o_m2 := m2 |}.
 Definition W (l : list object) : state := {| objs := l; trace := [] |}.
 Definition oname (i : nat) : string := nth i ["a"; "b"; "sub"; "root"; "self"] "?".
 Fixpoint hex4s (n : N) (k : nat) : string := match k with O => "" | S k' => hex4s (n / 16) k' ++ String (Ascii.ascii_of_N (let d := (n mod 16)%N in if (d <? 10)%N then 48 + d else 87 + d)%N) "" end.
@@ -37,7 +37,7 @@ Definition show_effect (e : effect) : string :=
   | ELog lv args => "log " ++ lv ++ " " ++ (match args with [] => "-" | _ => join "|" (map show args) end)
   end.
 Definition show_obj (o : object) : string :=
-  join "," [show (VB (o_b o)); show (VI (o_i o)); show (VU (o_u o)); show (VS (o_s o)); show (VP (o_next o))].
+  join "," [show (VB (o_b o)); show (VI (o_i o)); show (VU (o_u o)); show (VS (o_s o)); show (VP (o_next o)); show (VI (o_m1 o)); show (VI (o_m2 o))].
 Definition show_state (r : res state) : string :=
   match r with Def st => join ";" (map show_effect (rev (trace st))) ++ " # " ++ join " " (map show_obj (objs st)) | Undef => "UNDEF" | Stuck w => "STUCK " ++ w end.
 Definition bind_all (target : string) (body : callback) (ws : list state) : list string := map (fun w => show_res (run_binding NAMES 4 w target body)) ws.
@@ -49,13 +49,14 @@ def world(rng):
     objs = []
     for k in range(5):
         objs.append({"b": rng.random() < 0.5, "i": rng.choice(INTS), "u": rng.choice(UINTS), "s": rng.choice(STRS),
-                     "next": rng.choice([None, None, 0, 1, 2])})
+                     "next": rng.choice([None, None, 0, 1, 2]), "m1": rng.choice(INTS), "m2": rng.choice(INTS)})
     return objs
 
 
 def coq_world(w):
     def o(x):
-        return "MkO %s (%d) %d %s %s" % ("true" if x["b"] else "false", x["i"], x["u"], prog.coq_text(x["s"]), "None" if x["next"] is None else "(Some %d%%nat)" % x["next"])
+        return "MkO %s (%d) %d %s %s (%d) (%d)" % ("true" if x["b"] else "false", x["i"], x["u"], prog.coq_text(x["s"]), "None" if x["next"] is None else "(Some %d%%nat)" % x["next"],
+                                                 x.get("m1", 0), x.get("m2", 0))
     return "(W [%s])" % "; ".join(o(x) for x in w)
 
 
@@ -64,7 +65,7 @@ def hexs(s):
 
 
 def world_line(w):
-    return "W " + " ".join("%d %d %d %s %s" % (int(x["b"]), x["i"], x["u"], hexs(x["s"]), "null" if x["next"] is None else NAMES[x["next"]]) for x in w)
+    return "W " + " ".join("%d %d %d %s %s %d %d" % (int(x["b"]), x["i"], x["u"], hexs(x["s"]), "null" if x["next"] is None else NAMES[x["next"]], x.get("m1", 0), x.get("m2", 0)) for x in w)
 
 
 DRIVER_HEAD = r'''
@@ -76,7 +77,7 @@ DRIVER_HEAD = r'''
 #include <iostream>
 #include <sstream>
 static QString unhex(const std::string &h) { QString r; if (h == "-") return r; for (size_t i = 0; i + 3 < h.size(); i += 4) r.d.push_back(char16_t(std::stoul(h.substr(i, 4), nullptr, 16))); return r; }
-static std::string dumpObj(VObj *o) { return show(o->b_) + "," + show(o->i_) + "," + show(o->u_) + "," + show(o->s_) + "," + show(static_cast<const QObject *>(o->next_)); }
+static std::string dumpObj(VObj *o) { return show(o->b_) + "," + show(o->i_) + "," + show(o->u_) + "," + show(o->s_) + "," + show(static_cast<const QObject *>(o->next_)) + "," + show(o->m1_) + "," + show(o->m2_); }
 '''
 
 
@@ -97,9 +98,9 @@ def driver_source(objects, evals, handlers, targets=()):
     lines.append("    std::string line;")
     lines.append("    while (std::getline(std::cin, line)) {")
     lines.append("        std::istringstream in(line); std::string cmd; in >> cmd;")
-    lines.append("        if (cmd == \"W\") { for (int k = 0; k < 5; ++k) { int b; long long i; unsigned long long u; std::string sh, nx; in >> b >> i >> u >> sh >> nx;")
+    lines.append("        if (cmd == \"W\") { for (int k = 0; k < 5; ++k) { int b; long long i, m1, m2; unsigned long long u; std::string sh, nx; in >> b >> i >> u >> sh >> nx >> m1 >> m2;")
     lines.append("            std::vector<VObj *> targets; if (k < 4) targets.push_back(world[k]); else targets = owners;")
-    lines.append("            for (VObj *o : targets) { o->b_ = b; o->i_ = int(i); o->u_ = uint(u); o->s_ = unhex(sh); o->next_ = nx == \"null\" ? nullptr : nx == \"a\" ? world[0] : nx == \"b\" ? world[1] : world[2]; } }")
+    lines.append("            for (VObj *o : targets) { o->b_ = b; o->i_ = int(i); o->u_ = uint(u); o->s_ = unhex(sh); o->next_ = nx == \"null\" ? nullptr : nx == \"a\" ? world[0] : nx == \"b\" ? world[1] : world[2]; o->m1_ = int(m1); o->m2_ = int(m2); } }")
     lines.append("            trace().lines.clear(); std::cout << \"R ok\" << std::endl; }")
     lines.append("        else if (cmd == \"E\") { int k; in >> k; std::string r; switch (k) {")
     for k, fn in enumerate(evals):
@@ -122,7 +123,7 @@ def driver_source(objects, evals, handlers, targets=()):
     lines.append("            std::cout << \"R \" << t << \" # \" << dumpObj(world[0]) << \" \" << dumpObj(world[1]) << \" \" << dumpObj(world[2]) << \" \" << dumpObj(world[3]) << \" \" << dumpObj(owners.empty() ? world[3] : owners[k < (int)owners.size() ? k : 0]) << std::endl; }")
     lines.append("        else if (cmd == \"S\") { if (!is_setup) { s.setup(); is_setup = true; } std::cout << \"R ok\" << std::endl; }")
     lines.append("        else if (cmd == \"C\") { int k; std::string p, v; in >> k >> p >> v; VObj *o = world[k];")
-    lines.append("            if (p == \"b\") o->setB(v == \"1\"); else if (p == \"i\") o->setI(int(std::stoll(v))); else if (p == \"u\") o->setU(uint(std::stoull(v))); else if (p == \"s\") o->setS(unhex(v));")
+    lines.append("            if (p == \"b\") o->setB(v == \"1\"); else if (p == \"i\") o->setI(int(std::stoll(v))); else if (p == \"u\") o->setU(uint(std::stoull(v))); else if (p == \"s\") o->setS(unhex(v)); else if (p == \"m1\") o->setM1(int(std::stoll(v))); else if (p == \"m2\") o->setM2(int(std::stoll(v)));")
     lines.append("            else if (p == \"next\") o->setNext(v == \"null\" ? nullptr : v == \"a\" ? world[0] : v == \"b\" ? world[1] : world[2]);")
     lines.append("            std::cout << \"R ok\" << std::endl; }")
     lines.append("        else if (cmd == \"T\") { std::string r;")
@@ -135,11 +136,11 @@ def driver_source(objects, evals, handlers, targets=()):
     return "\n".join(lines) + "\n"
 
 
-def build(dirpath, objects, header, evals, handlers, sanitize=True, targets=()):
+def build(dirpath, objects, header, evals, handlers, sanitize=True, targets=(), defines=()):
     cxx.write_runtime(dirpath, objects)
     open(os.path.join(dirpath, "uisupport_mytype.h"), "w").write(header)
     open(os.path.join(dirpath, "driver.cpp"), "w").write(driver_source(objects, evals, handlers, targets))
-    flags = ["-std=c++17", "-O0", "-w", "-I", dirpath]
+    flags = ["-std=c++17", "-O0", "-w", "-I", dirpath] + ["-D" + d for d in defines]
     if sanitize:
         flags += ["-fsanitize=address,undefined", "-fno-sanitize-recover=undefined", "-fno-omit-frame-pointer"]
     pr = subprocess.run(["g++"] + flags + [os.path.join(dirpath, "driver.cpp"), "-o", os.path.join(dirpath, "driver")], capture_output=True, text=True, timeout=600)
